@@ -92,7 +92,7 @@ def _positive_exists(g, out, depth=0):
         _positive_exists(g.arg(1), out, depth + 1)
 
 
-def _prove(conds, goal, depth=0, level=1, timeout_ms=None, seeds=(0, 7, 23), ground_only=False):
+def _prove(conds, goal, depth=0, level=1, timeout_ms=None, seeds=(0, 7, 23), ground_only=False, wit_terms=()):
     """(result, solver) for `conds |= goal`.  Universal goals are skolemised here (also below an implication), conjunctive goals are
     discharged conjunct by conjunct, each as its own query with its own instantiation hints."""
     extra = []
@@ -157,11 +157,58 @@ def _prove(conds, goal, depth=0, level=1, timeout_ms=None, seeds=(0, 7, 23), gro
             for c in conds:
                 if z3.is_quantifier(c) and c.is_forall() and c.num_vars() == 1 and c.var_sort(0) == z3.IntSort():
                     extra.append(z3.substitute_vars(c.body(), wt))
+        wit_terms = list(wit_terms) + list(wit.values())
+    else:
+        wit_terms = list(wit_terms)
+    if level >= 2 and depth == 0:
+        # deterministic, bounded stand-in for e-matching over ground terms of the path: sequence positions  Nth(_, t)  and dictionary
+        # keys  Contains(_, Unit(t)) / Select(_, t)  that occur in the quantifier-free hypotheses (and, in a second round, in the
+        # instances obtained from them) are used to instantiate the position- / key-quantified hypotheses
+        uni = [c for c in conds if z3.is_quantifier(c) and c.is_forall() and c.num_vars() == 1]
+        pool = [c for c in conds if not z3.is_quantifier(c)] + [goal]
+        seen_terms = {}
+        for _round in range(2):
+            found = {}
+
+            def grab(t, d=0):
+                if d > 40 or not z3.is_app(t):
+                    return
+                k = t.decl().kind()
+                cand = None
+                if k == z3.Z3_OP_SEQ_NTH and t.num_args() == 2:
+                    cand = t.arg(1)
+                elif k == z3.Z3_OP_SEQ_UNIT and t.num_args() == 1:
+                    cand = t.arg(0)
+                elif k == z3.Z3_OP_SELECT and t.num_args() == 2 and not z3.is_int(t.arg(1)):
+                    cand = t.arg(1)
+                if cand is not None and not z3.is_int_value(cand) and not z3.is_string_value(cand) and len(str(cand)) < 160:
+                    key = str(cand)
+                    if key not in seen_terms and len(found) < 6:
+                        found[key] = cand
+                for ch in t.children():
+                    grab(ch, d + 1)
+            for x in pool:
+                grab(x)
+            if not found:
+                break
+            seen_terms.update(found)
+            new = []
+            for tm in found.values():
+                for c in uni:
+                    if c.var_sort(0) == tm.sort():
+                        new.append(z3.substitute_vars(c.body(), tm))
+            extra.extend(new)
+            pool = new
     base = list(conds) + extra
     if z3.is_and(goal) and goal.num_args() > 1 and depth < 4:
+        # the conjunction as a whole first (short budget): splitting usually helps, but not always
+        chk = [c for c in base if not (ground_only and z3.is_quantifier(c) and c.is_forall())]
+        r, s = _check(chk + [z3.Not(goal)], min(timeout_ms or Z3_TIMEOUT_MS, 3_000), seeds=(0,))
+        if r != z3.unknown:
+            return r, s
         r, s = z3.unsat, None
         for cj in goal.children():
-            r, s = _prove(base, cj, depth + 1, level, timeout_ms, seeds, ground_only)
+            r, s = _prove(base, cj, depth + 1, level, timeout_ms, seeds, ground_only, wit_terms)
             if r != z3.unsat:
                 break
         return r, s
@@ -184,6 +231,8 @@ def _prove(conds, goal, depth=0, level=1, timeout_ms=None, seeds=(0, 7, 23), gro
                 walk(t.body(), d + 1)
         for c in conds:
             walk(c)
+        for wt in wit_terms:          # "the position at which key sk sits" is a natural witness
+            cands[str(wt)] = wt
         for c in list(cands.values()):
             for w in (c, c + 1):
                 for ex in pos_ex:
@@ -212,8 +261,12 @@ def solve(ob, use_cvc5=True, fast=False):
             r, s = _prove(list(ob.conds), ob.goal, level=0, timeout_ms=min(Z3_TIMEOUT_MS, 5_000), seeds=(0,))
         if r == z3.unknown and fast:
             r, s = _prove(list(ob.conds), ob.goal, level=1, timeout_ms=min(Z3_TIMEOUT_MS, 5_000), seeds=(0,))
-        elif r == z3.unknown:    # ... with neighbours, index pairs and nested instances as well, full budget, several seeds
-            r, s = _prove(list(ob.conds), ob.goal, level=1)
+        elif r == z3.unknown:    # ... with neighbours, index pairs and nested instances as well, full budget
+            r, s = _prove(list(ob.conds), ob.goal, level=1, seeds=(0,))
+            if r == z3.unknown:  # ... the plain query once more, with the full budget
+                r, s = _check(list(ob.conds) + [z3.Not(ob.goal)], Z3_TIMEOUT_MS, seeds=(0, 7))
+            if r == z3.unknown:  # ... plus the hypotheses instantiated at the sequence positions and dictionary keys of the path (two rounds)
+                r, s = _prove(list(ob.conds), ob.goal, level=2, seeds=(0, 7))
     else:
         # reachability checks (cover / canary) only have to rule out vacuity: 'unknown' is acceptable, so they get a short budget
         r, s = _check(list(ob.conds), 2_000)
